@@ -1,1 +1,134 @@
-//! (filled in below)
+//! C07 units: location/scale parameters act as exact affine maps on a fixed RNG stream.  Relational (two-run)
+//! obligations: each contains one symbolic x symbolic float product on both sides (a multiplier miter), which is
+//! decidable here only for the f32 instantiation and with `--solver kissat` (measured, DESIGN.md 2.8).  The sampler
+//! source is generic over F, so these are obligations on the same source text that f64 runs.
+//! libm calls are replaced by MEMOISING contract stubs: same argument bits -> same result in both runs.
+use super::lc;
+use super::rd;
+use super::rngs::WordsRng;
+use core::sync::atomic::{AtomicBool, AtomicU32, Ordering::Relaxed};
+use rd::Distribution;
+
+fn same(a: f32, b: f32) -> bool { a == b || (a.is_nan() && b.is_nan()) }
+
+macro_rules! memo1 {
+    ($name:ident, $inner:path, $V:ident, $X:ident, $R:ident) => {
+        static $V: AtomicBool = AtomicBool::new(false);
+        static $X: AtomicU32 = AtomicU32::new(0);
+        static $R: AtomicU32 = AtomicU32::new(0);
+        /// one-entry memo around the assumed contract: a function of its argument bits
+        pub fn $name(x: f32) -> f32 {
+            if $V.load(Relaxed) && $X.load(Relaxed) == x.to_bits() { return f32::from_bits($R.load(Relaxed)); }
+            let r = $inner(x);
+            $X.store(x.to_bits(), Relaxed); $R.store(r.to_bits(), Relaxed); $V.store(true, Relaxed);
+            r
+        }
+    };
+}
+memo1!(logf_slot0, lc::logf, LV, LX, LR);
+static L2V: AtomicBool = AtomicBool::new(false);
+static L2X: AtomicU32 = AtomicU32::new(0);
+static L2R: AtomicU32 = AtomicU32::new(0);
+/// two-entry memo (Gumbel takes two logarithms per draw): slot 0 is filled first, slot 1 second, both are then reused
+pub fn logf_m(x: f32) -> f32 {
+    if LV.load(Relaxed) && LX.load(Relaxed) == x.to_bits() { return f32::from_bits(LR.load(Relaxed)); }
+    if L2V.load(Relaxed) && L2X.load(Relaxed) == x.to_bits() { return f32::from_bits(L2R.load(Relaxed)); }
+    if !LV.load(Relaxed) { return logf_slot0(x); }
+    let r = lc::logf(x);
+    L2X.store(x.to_bits(), Relaxed); L2R.store(r.to_bits(), Relaxed); L2V.store(true, Relaxed);
+    r
+}
+memo1!(expf_m, lc::expf, EV, EX, ER);
+memo1!(tanf_m, lc::tanf, TV, TX, TR);
+
+static PV: AtomicBool = AtomicBool::new(false);
+static PX: AtomicU32 = AtomicU32::new(0);
+static PY: AtomicU32 = AtomicU32::new(0);
+static PR: AtomicU32 = AtomicU32::new(0);
+pub fn powf_m(x: f32, y: f32) -> f32 {
+    if PV.load(Relaxed) && PX.load(Relaxed) == x.to_bits() && PY.load(Relaxed) == y.to_bits() { return f32::from_bits(PR.load(Relaxed)); }
+    let r = lc::powf(x, y);
+    PX.store(x.to_bits(), Relaxed); PY.store(y.to_bits(), Relaxed); PR.store(r.to_bits(), Relaxed); PV.store(true, Relaxed);
+    r
+}
+
+/// Normal::from_zscore(z) == mean + std_dev * z  for every mean, every finite std_dev (negative allowed), every z
+#[kani::proof]
+fn c07_normal_from_zscore_f32() {
+    let (mean, sd, z): (f32, f32, f32) = (kani::any(), kani::any(), kani::any());
+    let n = rd::Normal::<f32>::new(mean, sd);
+    kani::cover!(n.is_ok() && sd < 0.0, "negative std_dev accepted");
+    if let Ok(n) = n {
+        kani::assert(same(n.from_zscore(z), mean + sd * z), "Normal::from_zscore(z) == mean + std_dev * z");
+    }
+}
+
+/// LogNormal::from_zscore(z) == exp(mu + sigma * z)
+#[kani::proof]
+#[kani::stub(libm::expf, expf_m)]
+fn c07_lognormal_from_zscore_f32() {
+    let (mu, sigma, z): (f32, f32, f32) = (kani::any(), kani::any(), kani::any());
+    if let Ok(d) = rd::LogNormal::<f32>::new(mu, sigma) {
+        let want = <f32 as rd::num_traits::Float>::exp(mu + sigma * z);
+        kani::assert(same(d.from_zscore(z), want), "LogNormal::from_zscore(z) == exp(mu + sigma * z)");
+    }
+}
+
+/// Cauchy(median, scale) on a word == median + scale * Cauchy(0, 1) on the same word; one word each
+#[kani::proof]
+#[kani::stub(libm::tanf, tanf_m)]
+fn c07_cauchy_affine_f32() {
+    let (median, scale): (f32, f32) = (kani::any(), kani::any());
+    kani::assume(median.abs() <= 1e15 && scale >= 1e-15 && scale <= 1e15);
+    let a = rd::Cauchy::<f32>::new(median, scale).unwrap();
+    let b = rd::Cauchy::<f32>::new(0.0, 1.0).unwrap();
+    let w: u64 = kani::any();
+    let (mut r1, mut r2) = (WordsRng::<1>::of([w]), WordsRng::<1>::of([w]));
+    let xa: f32 = a.sample(&mut r1);
+    let xb: f32 = b.sample(&mut r2);
+    kani::assert(same(xa, median + scale * xb), "Cauchy(median, scale) == median + scale * Cauchy(0, 1) on the same stream");
+    kani::assert(r1.i == r2.i && r1.i == 1, "same number of words consumed");
+}
+
+/// Gumbel(location, scale) == location + scale * Gumbel(0, 1) on the same word
+#[kani::proof]
+#[kani::stub(libm::logf, logf_m)]
+fn c07_gumbel_affine_f32() {
+    let (location, scale): (f32, f32) = (kani::any(), kani::any());
+    kani::assume(location.abs() <= 1e15 && scale >= 1e-15 && scale <= 1e15);
+    let a = rd::Gumbel::<f32>::new(location, scale).unwrap();
+    let b = rd::Gumbel::<f32>::new(0.0, 1.0).unwrap();
+    let w: u64 = kani::any();
+    let (mut r1, mut r2) = (WordsRng::<1>::of([w]), WordsRng::<1>::of([w]));
+    let xa: f32 = a.sample(&mut r1);
+    let xb: f32 = b.sample(&mut r2);
+    // Gumbel(0,1) = 0 - 1 * g  with g = ln(-ln u);  the documented map is  location - scale * g = location + scale * xb
+    kani::assert(same(xa, location + scale * xb), "Gumbel(location, scale) == location + scale * Gumbel(0, 1) on the same stream");
+    kani::assert(r1.i == r2.i && r1.i == 1, "same number of words consumed");
+}
+
+macro_rules! frechet_affine {
+    ($name:ident, $shape:expr) => {
+        /// Frechet(location, scale, SHAPE) == location + scale * Frechet(0, 1, SHAPE) on the same word, for a CONCRETE shape
+        /// (both runs recompute 1/shape inside `sample`; with a symbolic shape that is a divider miter on top of the
+        /// multiplier miter and does not close: > 30 min)
+        #[kani::proof]
+        #[kani::stub(libm::logf, logf_m)]
+        #[kani::stub(libm::powf, powf_m)]
+        fn $name() {
+            let (location, scale): (f32, f32) = (kani::any(), kani::any());
+            let shape: f32 = $shape;
+            kani::assume(location.abs() <= 1e15 && scale >= 1e-15 && scale <= 1e15);
+            let a = rd::Frechet::<f32>::new(location, scale, shape).unwrap();
+            let b = rd::Frechet::<f32>::new(0.0, 1.0, shape).unwrap();
+            let w: u64 = kani::any();
+            let (mut r1, mut r2) = (WordsRng::<1>::of([w]), WordsRng::<1>::of([w]));
+            let xa: f32 = a.sample(&mut r1);
+            let xb: f32 = b.sample(&mut r2);
+            kani::assert(same(xa, location + scale * xb), "Frechet(location, scale, shape) == location + scale * Frechet(0, 1, shape) on the same stream");
+            kani::assert(r1.i == r2.i && r1.i == 1, "same number of words consumed");
+        }
+    };
+}
+frechet_affine!(c07_frechet_affine_shape2_f32, 2.0);
+frechet_affine!(c07_frechet_affine_shape075_f32, 0.75);
